@@ -184,6 +184,33 @@ func (m *monC09) Finish(rc *RunCtx) {
 				if sowDOY != DateOfZeit(c.sow).DOY() || harvDOY != hd.DOY() || harvY != hd.Y {
 					rc.Violate("C09", "crop_record_disagrees", fmt.Sprintf("crop record %d (%s) reports sowing doy %d harvest doy %d year %d, observed sowing %s harvest %s", recs+1, strings.TrimSpace(f[0]), sowDOY, harvDOY, harvY, DateOfZeit(c.sow), hd), c.harvest, 0, nil)
 				}
+				// the reported phenology itself is ordered: walking forward from the sowing day through the reported days of
+				// year of emergence, anthesis and maturity must arrive exactly at the harvest day (a date that is out of order
+				// costs a whole extra year)
+				{
+					at := DateOfZeit(c.sow)
+					okWalk := true
+					for _, col := range []int{3, 4, 5, 6} {
+						doy, _ := strconv.Atoi(strings.TrimSpace(f[col]))
+						if doy == 0 {
+							continue // stage not reached
+						}
+						steps := 0
+						for at.DOY() != doy && steps < 800 {
+							at = at.AddDays(1)
+							steps++
+						}
+						if steps >= 800 {
+							okWalk = false
+							break
+						}
+					}
+					if !okWalk || at.Zeit() != c.harvest {
+						rc.Violate("C09", "reported_phenology_out_of_order", fmt.Sprintf("crop record %d (%s): sowing %s, reported days of year emergence %s anthesis %s maturity %s harvest %s do not lie in this order before the harvest on %s", recs+1, strings.TrimSpace(f[0]), DateOfZeit(c.sow), strings.TrimSpace(f[3]), strings.TrimSpace(f[4]), strings.TrimSpace(f[5]), strings.TrimSpace(f[6]), hd), c.harvest, 0, nil)
+					} else {
+						rc.Cov("crop_records_phenology_order_checked", 1)
+					}
+				}
 				for col, stage := range map[int]int{3: 1, 4: 4, 5: 5} {
 					rep, _ := strconv.Atoi(strings.TrimSpace(f[col]))
 					if d, ok := c.stageDay[stage]; ok && rep != 0 && rep != DateOfZeit(d).DOY() {
